@@ -1,3 +1,4 @@
+import CoapVerif.Spec.OptionOp
 /-!
 # Specification for C15: the option list as a sorted multiset with stable insertion
 
@@ -116,6 +117,7 @@ inductive Op
   | addQuery (q : Bytes)
   | resetTo (inp : List Item)
   | resetSelf (idxs : List Nat)                               -- reset to a selection of the object's own options
+  | resetSlice (k n : Nat)                                    -- reset to the slice [k:k+n] of the object's own option slice
   | clone | swap | reset
   | find (id : Nat) | has (id : Nat)
   | getFirst (as : String) (id : Nat)                         -- getu32 / getstr / getbytes
@@ -192,6 +194,36 @@ def totalLen (l : List Item) : Nat := l.foldl (fun acc x => acc + x.2.length) 0
 def selectOwn {β : Type} (l : List β) (idxs : List Nat) : List β :=
   idxs.filterMap (fun i => l[i % l.length]?)
 
+/-- the slice `[k:k+n]` of a list, `k` and `n` normalised into range (as the harness does) -/
+def ownSlice {β : Type} (l : List β) (k n : Nat) : List β :=
+  let k' := k % (l.length + 1)
+  (l.drop k').take (n % (l.length - k' + 1))
+
+/-! ### reference semantics of one operation of a pooled message's history
+
+`specStep l op` is the reference list after `op`.  Two choices are **not** dictated by the words of the property and
+are fixed here, documented, to what the library's API does (they are the only places where this definition looks at
+the code):
+
+* a Uri-Path *value* longer than 255 bytes handed to the **string** setters (`SetOptionString`/`AddOptionString`) is
+  refused (the list stays as it is), while the **bytes** setters (`SetOptionBytes`/`AddOptionBytes`) store it — the
+  property only says that path *segments* over 255 bytes are refused when a *path* is set; the executable judge
+  (`judgeStep`) is deliberately more liberal and accepts either outcome for such a value;
+* a refused `SetPath` leaves the list as it is (`Option.getD`). -/
+def specStep (l : List Item) : CoapVerif.Spec.OptionOp.Op → List Item
+  | .setBytes id v => set (id, v) l
+  | .addBytes id v => ins (id, v) l
+  | .setString id v => if id = uriPathId ∧ v.length > maxSegment then l else set (id, v) l
+  | .addString id v => if id = uriPathId ∧ v.length > maxSegment then l else ins (id, v) l
+  | .setUint32 id v => set (id, uintBytes v) l
+  | .addUint32 id v => ins (id, uintBytes v) l
+  | .setPath p => (setPath uriPathId p l).getD l
+  | .addQuery q => ins (uriQueryId, q) l
+  | .remove id => remove id l
+  | .resetTo inp => resetTo inp
+  | .resetSelf idxs => resetTo (selectOwn l idxs)
+  | .reset => []
+
 def judgeStep (st : RefState) (op : Op) (ob : Obs) : String × RefState :=
   if ob.panic then ("violates no-crash: the operation panicked (runtime error)", st) else
   let l := st.cur.items
@@ -216,6 +248,9 @@ def judgeStep (st : RefState) (op : Op) (ob : Obs) : String × RefState :=
   | .addQuery q => judgeEdit st ⟨[], false, ins (uriQueryId, q) l, q.length⟩ ob
   | .resetTo inp => judgeEdit st ⟨[], false, resetTo inp, totalLen inp⟩ ob
   | .resetSelf idxs => judgeEdit st ⟨[], false, resetTo (selectOwn l idxs), totalLen (selectOwn l idxs)⟩ ob
+  | .resetSlice k n =>
+    let inp := ownSlice l k n
+    judgeEdit st ⟨[], false, resetTo inp, totalLen inp⟩ ob
   | .reset =>
     let st' := { st with cur := ⟨[], st.cur.rem.map (fun _ => st.bufSize)⟩ }
     if ob.items != [] then ("violates list-equals-reference: the list is not empty after reset", st') else ("ok", st')
